@@ -48,6 +48,7 @@ func verifArbitrarySub(tag string) types.SubDistributor {
 }
 
 func Verif_C20_distributor_messages() {
+	vC20Direct = verif_choice("handlerCalledDirectly", 2) == 1
 	k, ctx := verifC20DistCtx()
 	authority := verif_str_in("authority", appparams.GetAuthority(), "c4e:someone", "")
 	ms := NewMsgServerImpl(k)
@@ -55,11 +56,15 @@ func Verif_C20_distributor_messages() {
 	switch verif_choice("msg", 4) {
 	case 0:
 		var subs []types.SubDistributor
-		for i := 0; i < verif_choice("newN", 3); i++ {
+		maxN := 3
+		if vC20Direct {
+			maxN = 2 // direct calls: 0..1 sub-distributors
+		}
+		for i := 0; i < verif_choice("newN", maxN); i++ {
 			subs = append(subs, verifArbitrarySub(string(rune('A'+i))))
 		}
 		msg := &types.MsgUpdateParams{Authority: authority, SubDistributors: subs}
-		if msg.ValidateBasic() == nil {
+		if verifC20Run(msg.ValidateBasic) {
 			_, _ = ms.UpdateParams(g, msg)
 			verif_reach("handler ran")
 		}
@@ -69,20 +74,20 @@ func Verif_C20_distributor_messages() {
 			sd := verifArbitrarySub("A")
 			msg.SubDistributor = &sd
 		}
-		if msg.ValidateBasic() == nil {
+		if verifC20Run(msg.ValidateBasic) {
 			_, _ = ms.UpdateSubDistributorParam(g, msg)
 			verif_reach("handler ran")
 		}
 	case 2:
 		msg := &types.MsgUpdateSubDistributorDestinationShareParam{Authority: authority, SubDistributorName: verif_str_in("sdName", "sd1", "sd9", ""),
 			DestinationName: verif_str_in("dstName", "share1", "nope", ""), Share: verifNilableDec("newShare")}
-		if msg.ValidateBasic() == nil {
+		if verifC20Run(msg.ValidateBasic) {
 			_, _ = ms.UpdateSubDistributorDestinationShareParam(g, msg)
 			verif_reach("handler ran")
 		}
 	case 3:
 		msg := &types.MsgUpdateSubDistributorBurnShareParam{Authority: authority, SubDistributorName: verif_str_in("sdName", "sd1", "sd9", ""), BurnShare: verifNilableDec("newBurn")}
-		if msg.ValidateBasic() == nil {
+		if verifC20Run(msg.ValidateBasic) {
 			_, _ = ms.UpdateSubDistributorBurnShareParam(g, msg)
 			verif_reach("handler ran")
 		}
@@ -107,4 +112,16 @@ func Verif_C20_distributor_queries() {
 		}
 	}
 	verif_reach("query ran")
+}
+
+// A handler is exercised when basic validation passes and also when it is called directly, whatever basic validation would say
+// (handlers are reachable without ValidateBasic from other modules and from tests; they carry their own guards). In the direct
+// mode ValidateBasic is not run at all, so its branches do not multiply the handler's.
+var vC20Direct = false
+
+func verifC20Run(basic func() error) bool {
+	if vC20Direct {
+		return true
+	}
+	return basic() == nil
 }
